@@ -54,14 +54,14 @@ def _variants(history):
                     for half in (seq[:len(seq) // 2], seq[len(seq) // 2:]):
                         new = copy.deepcopy(history)
                         new[i][field] = half
-                        if "value" in op and op["value"][0] == "arr":
+                        if "value" in op and op["value"][0] in ("arr", "list"):
                             continue
                         yield new
                 for k in range(len(seq)):
                     new = copy.deepcopy(history)
                     new[i][field] = seq[:k] + seq[k + 1:]
-                    if "value" in op and op["value"][0] == "arr":
-                        new[i]["value"] = ["arr", op["value"][1], op["value"][2][:k] + op["value"][2][k + 1:]]
+                    if "value" in op and op["value"][0] in ("arr", "list"):
+                        new[i]["value"] = [op["value"][0], op["value"][1], op["value"][2][:k] + op["value"][2][k + 1:]]
                     if op["op"] in ("contains",) and op.get("scalar") and not new[i][field]:
                         continue
                     yield new
@@ -82,7 +82,7 @@ def _variants(history):
                 new = copy.deepcopy(history)
                 new[i]["key_dtype"] = "int64"
                 yield new
-        for flag in ("as_list", "q_dtype", "b_dtype", "default_init"):
+        for flag in ("as_list", "q_dtype", "b_dtype", "default_init", "np_key", "keys_as_list"):
             if flag in op:
                 new = copy.deepcopy(history)
                 del new[i][flag]
